@@ -306,6 +306,16 @@ pub fn judge(scn: &Scn, out: &Outcome) -> Vec<Finding> {
 
     // ------------------------------------------------------------ hang etc.
     match &out.rec.status {
+        Status::Hang(list)
+            if scn.hang_probe.is_some()
+                && list.iter().all(|(_, b)| matches!(b, Block::Park))
+                && hist
+                    .iter()
+                    .any(|e| e.k == OpK::TrySend && e.val == crate::scenario::HANG_PROBE_VAL && e.res != Res::Ok) =>
+        {
+            // only tasks are parked and the probe send was refused too: the
+            // queue is full for a reason (a stream that nobody drains)
+        }
         Status::Hang(list) => {
             let lbl = scn.cfg.label();
             let waitlbl = lbl.rsplit('-').next().unwrap_or("").to_string();
